@@ -1,6 +1,8 @@
 package ot
 
 import (
+	"errors"
+
 	"github.com/taurusgroup/multi-party-sig/pkg/hash"
 	"github.com/taurusgroup/multi-party-sig/pkg/math/curve"
 	"github.com/taurusgroup/multi-party-sig/pkg/math/sample"
@@ -50,6 +52,9 @@ func NewAdditiveOTSender(ctxHash *hash.Hash, setup *CorreOTSendSetup, batchSize 
 }
 
 func (r *AdditiveOTSender) Round1(msg *AdditiveOTReceiveRound1Message) (*AdditiveOTSendRound1Message, AdditiveOTSendResult, error) {
+	if msg == nil || msg.Msg == nil || msg.Msg.CorreMsg == nil {
+		return nil, nil, errors.New("AdditiveOTSender.Round1: incomplete message")
+	}
 	extendedResult, err := ExtendedOTSend(r.ctxHash, r.setup, r.batchSize, msg.Msg)
 	if err != nil {
 		return nil, nil, err
@@ -133,6 +138,9 @@ type AdditiveOTReceiveResult [][2]curve.Scalar
 // Round2 executes the Receiver's second round of an Additive OT.
 func (r *AdditiveOTReceiver) Round2(msg *AdditiveOTSendRound1Message) (AdditiveOTReceiveResult, error) {
 	batchSize := 8 * len(r.choices)
+	if msg == nil || len(msg.CombinedPads) != batchSize {
+		return nil, errors.New("AdditiveOTReceiver.Round2: incorrect batch size in message")
+	}
 	result := make([][2]curve.Scalar, batchSize)
 	prg := blake3.New()
 	for i := 0; i < batchSize; i++ {
@@ -142,10 +150,10 @@ func (r *AdditiveOTReceiver) Round2(msg *AdditiveOTSendRound1Message) (AdditiveO
 		digest := prg.Digest()
 		result[i][0] = sample.Scalar(digest, r.group).Negate()
 		result[i][1] = sample.Scalar(digest, r.group).Negate()
-		for j := 0; j < len(msg.CombinedPads[j][0]); j++ {
+		for j := 0; j < len(msg.CombinedPads[i][0]); j++ {
 			msg.CombinedPads[i][0][j] &= mask
 		}
-		for j := 0; j < len(msg.CombinedPads[j][1]); j++ {
+		for j := 0; j < len(msg.CombinedPads[i][1]); j++ {
 			msg.CombinedPads[i][1][j] &= mask
 		}
 		combinedPad0 := r.group.NewScalar()
